@@ -5,6 +5,7 @@ mod calc;
 mod counted;
 mod dynops;
 mod expr;
+mod floatgrid;
 mod fuzz;
 mod fuzz_calc;
 mod lex;
@@ -33,6 +34,7 @@ fn main() {
         "vars" => vars::main(rest),
         "valgrid" => valgrid::main(rest),
         "calc" => calc::main(rest),
+        "floatgrid" => floatgrid::main(rest),
         "valdiff" => valdiff::main(rest),
         "fuzz-calc" => fuzz_calc::main(rest),
         "fuzz-val" => valgrid::main_fuzz(rest),
